@@ -300,6 +300,27 @@ func main() {
 					)
 				}
 			}
+			// messages whose fragments add up beyond what the collecting helpers reserve up front
+			// (1 MiB), in several shapes: a further fragment arriving when more than that is already
+			// collected, longer than whatever room is left
+			for _, side := range []streams.Side{streams.Server, streams.Client} {
+				for _, shape := range [][]int{{1 << 20, 300 << 10}, {1<<20 + 1, 1, 3}, {600 << 10, 600 << 10, 600 << 10}, {1, 1 << 20, 1, 1 << 20, 1}, {1 << 19, 1 << 19, 1 << 19, 1 << 19, 7}} {
+					var frames []streams.Frame
+					for fi, n := range shape {
+						p := make([]byte, n)
+						for i := range p {
+							p[i] = byte(i*13 + i>>11 + fi + 1)
+						}
+						op := byte(0)
+						if fi == 0 {
+							op = 2
+						}
+						frames = append(frames, streams.Frame{H: refmodel.Hdr{Fin: fi == len(shape)-1, Op: op, Masked: side == streams.Server, Mask: streams.Masks[fi%3]}, Payload: p})
+					}
+					frames = append(frames, streams.Frame{H: refmodel.Hdr{Fin: true, Op: 1, Masked: side == streams.Server, Mask: streams.Masks[1]}, Payload: []byte("next")})
+					jobs = append(jobs, job{stream{side, frames}, fmt.Sprintf("%s Bin in fragments of %v bytes, Text(next)", side, shape)})
+				}
+			}
 			t.Par(len(jobs), func(i int) {
 				j := jobs[i]
 				data, _ := streams.Wire(j.st.frames)
